@@ -154,11 +154,17 @@ def findlabels_pre_310(code, opc):
 NO_LINE_NUMBER = -128
 
 
-def findlinestarts(code, dup_lines=False):
+def findlinestarts(code, dup_lines=False, version_tuple=None):
     """Find the offsets in a byte code which are start of lines in the source.
 
     Generate pairs (offset, lineno) as described in Python/compile.c.
+
+    ``version_tuple`` is the Python version of the bytecode, when known.
+    Before 3.6 line increments in ``co_lnotab`` are unsigned; before 3.8
+    ``dis`` does not stop at entries that are past the end of the bytecode.
     """
+    signed_line_deltas = version_tuple is None or version_tuple >= (3, 6)
+    stop_past_end = version_tuple is None or version_tuple >= (3, 8)
 
     if hasattr(code, "co_lines"):
         # Taken from 3.10 findlinestarts
@@ -200,13 +206,13 @@ def findlinestarts(code, dup_lines=False):
                         yield offset, lineno
                         lastlineno = lineno
                         pass
-                    if offset >= bytecode_len:
+                    offset += byte_incr
+                    if stop_past_end and offset >= bytecode_len:
                         # The rest of the ``lnotab byte offsets are past the end of
                         # the bytecode; any line numbers for these have been removed.
                         return
-                    offset += byte_incr
                     pass
-                if line_delta >= 0x80:
+                if signed_line_deltas and line_delta >= 0x80:
                     # line_deltas is an array of 8-bit *signed* integers
                     line_delta -= 0x100
                 lineno += line_delta
